@@ -1,16 +1,16 @@
 """C16: cargo features are additive (equality across builds through one shared reference)."""
-from ._util import H, KGroup
+from ._util import H, KGroup, pick
 
 
 def plan(tier, seed):
-    fams_int = [H("c04::k1_u8_4", "integer parse vs reference", "len<=4"), H("c04::k1_i32_4", "", "len<=4"), H("c04::k1_u64_4", "", "len<=4")]
+    fams_int = [H("c04::k1_u8_4", "integer parse vs reference", "len<=4"), H("c04::k1_u64_4", "", "len<=4")] + ([H("c04::k1_i32_4", "", "len<=4")] if tier == "thorough" else [])
     fams_wr = [H("c03::w1_u8", "integer write vs canonical numeral", "all values"), H("c03::w1_i16", "", "all values"), H("c03::w2_u32", "", "cubes")]
     fams_fl = [H("pf::p1_f64_partial_4", "float grammar/count/error kind+index/decomposition vs reference", "len<=4"), H("pf::p1_f32_complete_4", "", "len<=4")]
-    sets = ["C", "P", "R", "F", "RF"] if tier == "quick" else ["C", "P", "R", "F", "RF", "CRF", "CF", "S", "SRF"]
+    sets = (["C", "RF"] + pick(["P", "R", "F"], seed, 1)) if tier == "quick" else ["C", "P", "R", "F", "RF", "CRF", "CF", "S", "SRF"]
     groups = []
     for fs in sets:
-        groups.append(KGroup(fs, fams_int + fams_wr, timeout=1500, jobs=6, mem_gb=8, label="ints " + fs))
-        groups.append(KGroup(fs, fams_fl, timeout=1500, jobs=2, mem_gb=10, stubbing=True, label="float grammar " + fs))
+        groups.append(KGroup(fs, fams_int + fams_wr, timeout=800 if tier == "quick" else 3600, jobs=6, mem_gb=12, label="ints " + fs))
+        groups.append(KGroup(fs, fams_fl, timeout=800 if tier == "quick" else 3600, jobs=2, mem_gb=14, stubbing=True, label="float grammar " + fs))
     return {
         "kani": groups,
         "functions_encoded": ["the STANDARD-format harness families of C04, C03 and C12 compiled under each feature set"],
